@@ -48,7 +48,8 @@ def r_property(ctx, mc_runs, required_actions, render_cls, run_calls, dom, assum
                             'corpus_index': t})
     n = res['n']
     ctx.coverage.update({
-        'traces_validated_against_impl': 1,
+        'traces_validated_against_impl': n - len(res['bad']),   # every record is one complete public call: its own small trace
+        'trace_files': 1,
         'trace_events': n,
         'trace_events_rejected': len(res['bad']),
         'programs': len(corpus),
@@ -190,8 +191,8 @@ def c07(ctx):
 
 # ---------------------------------------------------------------- C06
 class DebugRender(TypeRender):
-    def __init__(self, idx, cfg, prop):
-        super().__init__(idx, cfg, prop)
+    def __init__(self, idx, cfg, prop, **kw):
+        super().__init__(idx, cfg, prop, **kw)
         from render import NAME_POOLS, pick
         # ordinary identifiers only (raw identifiers are outside "byte-identical to derive(Debug)")
         self.pool = [None, NAME_POOLS[2], NAME_POOLS[3]][pick([0, 0, 1, 2], idx, 'names')]
@@ -256,8 +257,8 @@ def c06(ctx):
 class DefaultRender(TypeRender):
     NAT = {'none': 'i32', 'int': 'i32', 'str': "&'static str", 'bool': 'bool', 'char': 'char', 'float': 'f64'}
 
-    def __init__(self, idx, cfg, prop):
-        super().__init__(idx, cfg, prop)
+    def __init__(self, idx, cfg, prop, **kw):
+        super().__init__(idx, cfg, prop, **kw)
         self.pool = None
 
     def field_type(self, v, i, f):
@@ -495,7 +496,7 @@ def c14(ctx):
                        'members': [{'member': k, 'text': t, 'outcome': outs['%s#%d' % (e['g'], k)]['outcome'],
                                     'err': outs['%s#%d' % (e['g'], k)].get('err'), 'out': outs['%s#%d' % (e['g'], k)].get('out')} for k, t in members]})
     ctx.coverage.update({
-        'traces_validated_against_impl': 1, 'trace_events': res['n'], 'trace_events_rejected': len(res['bad']),
+        'traces_validated_against_impl': res['n'] - len(res['bad']), 'trace_files': 1, 'trace_events': res['n'], 'trace_events_rejected': len(res['bad']),
         'programs': len(recs), 'evaluations': len(requests), 'distinct_nontrivial': n_groups,
         'rule': 'multi-trait struct/enum configurations with at most MaxDeviations non-default settings (t-way); for every spelling site the specification lists '
                 '(EduceSpell classes: p = v / p(v), ident/path/int/predicate vs string literal, name/rename, expression/expr, Trait = X shorthands, ignore forms, '
@@ -568,7 +569,7 @@ def c15(ctx):
                       {'what': 'the impl generated for one trait differs when other traits (with attributes of their own) are present, or when their attributes are spelled/ordered differently',
                        'members': mem})
     ctx.coverage.update({
-        'traces_validated_against_impl': 1, 'trace_events': res['n'], 'trace_events_rejected': len(res['bad']),
+        'traces_validated_against_impl': res['n'] - len(res['bad']), 'trace_files': 1, 'trace_events': res['n'], 'trace_events_rejected': len(res['bad']),
         'programs': len(recs), 'evaluations': len(requests), 'distinct_nontrivial': n_pairs,
         'rule': 'multi-trait struct/enum configurations with at most MaxDeviations non-default settings (t-way) x every educed trait t; three expansions per pair: the full '
                 'configuration written canonically, the full configuration with mixed spellings/orders/attribute splitting, and Restrict(cfg, t) (only t and its coupled '
@@ -664,7 +665,7 @@ def c16(ctx):
                       {'what': 'the same input expanded to different token streams (or was not accepted) across repetitions / processes',
                        'input': textmap[e['id']], 'distinct_outputs': distinct[:6], 'observations': len(outs)})
     ctx.coverage.update({
-        'traces_validated_against_impl': 1, 'trace_events': res['n'], 'trace_events_rejected': len(res['bad']),
+        'traces_validated_against_impl': res['n'] - len(res['bad']), 'trace_files': 1, 'trace_events': res['n'], 'trace_events_rejected': len(res['bad']),
         'programs': len(texts), 'evaluations': res['n'], 'distinct_nontrivial': len(texts),
         'processes': nproc + 1, 'repetitions_in_process': 3,
         'rule': 'inputs: every subset of four Into targets x {struct, enum} x {no other trait, Debug+Clone} in two attribute orders (from MC_C16), plus every multi-trait '
@@ -690,8 +691,17 @@ def param_text(p):
     return '%s = %s' % (p['name'], v) if p['form'] == 'nv' else '%s(%s)' % (p['name'], v)
 
 
+INTO_TY_TEXT = {'req': 'u8', 'other': 'zz', 'path2': 'aa::bb', 'int': '3', 'str_ident': '"zz"', 'star': '*', 'none': ''}
+
+
 def meta_text(m):
     t = m['t']
+    if t == 'Into' and m.get('ty', '-') != '-':
+        items = [INTO_TY_TEXT[m['ty']]] if INTO_TY_TEXT[m['ty']] else []
+        items += [param_text(p) for p in m['params']]
+        if m['uns'] == 'first':
+            items = ['unsafe'] + items
+        return 'Into(%s)' % ', '.join(items)
     if m['form'] == 'path':
         return t
     if m['form'] == 'nv':
@@ -713,6 +723,8 @@ def injected_item(rec):
     def type_meta(t):
         if kind == 'union' and t in ('Debug', 'PartialEq', 'Hash'):
             return '%s(unsafe)' % t
+        if t == 'Into':
+            return 'Into(u8)'
         if t == 'Default' and base.endswith('_texpr'):
             return 'Default(expression = %s)' % ('T { a: 0, b: 0 }' if kind == 'struct' else 'T::V1 { a: 0, b: 0 }')
         return t
@@ -743,7 +755,21 @@ def injected_item(rec):
         return '%senum T { %sV1 { %sa: u8, b: u8 }, #[educe(Default)] V2 }' % (head, va, fa)
     if base == 'union1':
         return '%sunion T { %sa: u8 }' % (head, fa)
+    if base == 'into1_struct':
+        return '%sstruct T(%su8);' % (head, fa)
+    if base == 'into1_enum':
+        return '%senum T { %sV1(%su8) }' % (head, va, fa)
     raise ToolError('unknown base %s' % base)
+
+
+def raw_ident_variant(text):
+    """the same item with raw identifiers as field / variant names (names must not matter to the scanner)"""
+    import re as _re
+    t = text.replace('T { a: 0, b: 0 }', 'T { r#type: 0, r#fn: 0 }').replace('T::V1 { a: 0, b: 0 }', 'T::r#Match { r#type: 0, r#fn: 0 }')
+    t = _re.sub(r'\ba: u8', 'r#type: u8', t)
+    t = _re.sub(r'\bb: u8', 'r#fn: u8', t)
+    t = _re.sub(r'\bV1\b', 'r#Match', t)
+    return t
 
 
 def kconfirm(ctx, items):
@@ -800,7 +826,35 @@ def c13(ctx):
         meta[rid] = {'mode': 'expect', 'expect': r['verdict']}
     n_bad = sum(1 for r in recs if r['verdict'] == 'err')
     ctx.info('%d injected inputs (%d must be refused, %d must be accepted)' % (len(recs), n_bad, len(recs) - n_bad))
+    # accepted inputs again with raw identifiers as field / variant names
+    for i, r in enumerate(recs):
+        if r['verdict'] == 'ok':
+            rid = 'r%d' % i
+            requests.append({'id': rid, 'text': raw_ident_variant(injected_item(r))})
+            meta[rid] = {'mode': 'expect', 'expect': 'ok'}
     neg = negative_corpora(ctx, quick)
+    # refused configurations enumerated by the per-trait models (SealBad / NEG lines)
+    st = dict(ctx.coverage)
+    neg_sources = [('MC_C06', DebugRender, 'nothing to print / rename on a positional field'),
+                   ('MC_C08', DefaultRender, 'default designation missing, duplicated or misplaced'),
+                   ('MC_C09', TypeRender, 'Deref / DerefMut designation missing or duplicated'),
+                   ('MC_C10', TypeRender, 'Into designation missing or ambiguous')]
+    if not quick:
+        neg_sources.append(('MC_C03', TypeRender, 'rank given twice among compared fields'))
+    n_model_neg = 0
+    for module, cls, why in neg_sources:
+        negs = model_check_tagged(ctx, [{'module': module, 'cfg': module + '_quick.cfg', 'workers': 8}], 'NEG')
+        st['states'] += ctx.coverage['states']
+        st['transitions'] += ctx.coverage['transitions']
+        st['mc_runs'] = st['mc_runs'] + ctx.coverage['mc_runs']
+        for k, c in enumerate(negs):
+            r = cls(k + 1, c, 'C13neg', name='T')
+            neg.append((r.item(derive=False), why + ' (model-enumerated)', c))
+            n_model_neg += 1
+    ctx.coverage['states'] = st['states']
+    ctx.coverage['transitions'] = st['transitions']
+    ctx.coverage['mc_runs'] = st['mc_runs']
+    ctx.coverage['model_enumerated_negatives'] = n_model_neg
     for j, (text, why, cfg) in enumerate(neg):
         rid = 'n%d' % j
         requests.append({'id': rid, 'text': text})
@@ -813,7 +867,7 @@ def c13(ctx):
     for ln in res['bad']:
         e = lines[ln]
         rid = e['id']
-        if rid.startswith('i'):
+        if rid.startswith('i') or rid.startswith('r'):
             rec = recs[int(rid[1:])]
             key = {'kind': 'injected-meta', 'ctx': rec['ctx'], 'educed': sorted(t for t, b in rec['educed'].items() if b), 'meta': rec['meta']}
             what = ('the scanner specification (EduceScan.Verdict) says this attribute must be %s here, the macro %s'
@@ -824,7 +878,7 @@ def c13(ctx):
             what = 'a contradictory / ambiguous / misplaced construct (%s) was %s instead of being refused with a diagnostic' % (why, e['outcome'])
         ctx.violation(key, {'what': what, 'input': textmap[rid], 'outcome': rawmap[rid]['outcome'], 'err': rawmap[rid].get('err'), 'out': rawmap[rid].get('out')})
     ctx.coverage.update({
-        'traces_validated_against_impl': 1, 'trace_events': res['n'], 'trace_events_rejected': len(res['bad']),
+        'traces_validated_against_impl': res['n'] - len(res['bad']), 'trace_files': 1, 'trace_events': res['n'], 'trace_events_rejected': len(res['bad']),
         'programs': len(requests), 'evaluations': len(requests), 'distinct_nontrivial': n_bad + len(neg),
         'structural_negative_inputs': len(neg),
         'rule': 'every (context, meta) pair of the scanner specification within the bounds of the MC_C13 cfg (contexts = kind x position x educed set x shown-with-key/'
@@ -966,6 +1020,11 @@ def c17(ctx):
         requests.append({'id': rid, 'text': injected_item(r)})
         meta[rid] = {'mode': 'total'}
     base_texts = [r['text'] for r in requests]
+    for i, r in enumerate(recs):
+        if r['verdict'] == 'ok':
+            rid = 'r%d' % i
+            requests.append({'id': rid, 'text': raw_ident_variant(injected_item(r))})
+            meta[rid] = {'mode': 'total'}
     neg = negative_corpora(ctx, quick)
     for j, (text, why, cfg) in enumerate(neg):
         rid = 'n%d' % j
@@ -1007,7 +1066,7 @@ def c17(ctx):
             else:
                 ctx.note('in-process %s not reproduced by the real compiler (fallback token printer): %s' % (rawmap[cid]['outcome'], textmap[cid][:200]))
     ctx.coverage.update({
-        'traces_validated_against_impl': 1, 'trace_events': res['n'], 'trace_events_rejected': len(res['bad']),
+        'traces_validated_against_impl': res['n'] - len(res['bad']), 'trace_files': 1, 'trace_events': res['n'], 'trace_events_rejected': len(res['bad']),
         'programs': len(requests), 'evaluations': len(keep), 'distinct_nontrivial': len({r['text'] for r in requests}),
         'inputs_not_parsing_as_derive_input': dropped,
         'rule': 'all inputs of the scanner model (every value kind at every parameter of every trait at every position), the structural negatives, seeded token-level '
@@ -1219,7 +1278,7 @@ def c12(ctx):
                                '(EduceBounds.ImplParams / WhereSet)', 'input': requests[e['t'] - 1]['text'], 'observed': e,
                        'outcome': rawmap[e['t']]['outcome'], 'err': rawmap[e['t']].get('err')})
     ctx.coverage.update({
-        'traces_validated_against_impl': 1, 'trace_events': res['n'], 'trace_events_rejected': len(res['bad']),
+        'traces_validated_against_impl': res['n'] - len(res['bad']), 'trace_files': 1, 'trace_events': res['n'], 'trace_events_rejected': len(res['bad']),
         'programs': len(corpus), 'evaluations': n_items, 'distinct_nontrivial': sum(1 for c in corpus if any(v != 'auto' for v in c['opts']['bounds'].values())),
         'rule': 'generic items over two generics descriptors (<T, U>; <\'a, const N: usize, T: Bnd = u8> where T: Usr) x 13 trait sets x bound mode of the set\'s '
                 'primary trait {auto, auto spelled explicitly, bound = false, bound(*), custom predicate} in every spelling x field type classes and delegation attributes; '
@@ -1401,7 +1460,7 @@ def c01(ctx):
                        'source': src, 'in_process': {'outcome': accepted[i]['outcome'], 'err': accepted[i].get('err')},
                        'rustc': per[i]['msgs'][:5]})
     ctx.coverage.update({
-        'traces_validated_against_impl': 1, 'trace_events': res['n'], 'trace_events_rejected': len(res['bad']),
+        'traces_validated_against_impl': res['n'] - len(res['bad']), 'trace_files': 1, 'trace_events': res['n'], 'trace_events_rejected': len(res['bad']),
         'programs': len(items), 'evaluations': len(items), 'distinct_nontrivial': sum(1 for c in corpus if nontrivial(c)) + len(bounds_corpus) + len(SPECIAL_SHAPES),
         'rule': 'multi-trait configurations (eight traits educed together, t-way attribute settings, every spelling / name pool incl. raw and template-internal identifiers), '
                 'the generic-header / bound-mode corpus of C12 (lifetimes, bounded + defaulted type parameters, const parameters, user where-clauses), and a list of special '
@@ -1565,7 +1624,7 @@ def c18(ctx):
         if b and b[0]['ok'] and b[0]['warnings'] == 0:
             ctx.note('gating model predicted a failure for %s but the real build is clean (model drift)' % pset)
     ctx.coverage.update({
-        'traces_validated_against_impl': 1, 'trace_events': tr['n'], 'trace_events_rejected': len(tr['bad']),
+        'traces_validated_against_impl': tr['n'] - len(tr['bad']), 'trace_files': 1, 'trace_events': tr['n'], 'trace_events_rejected': len(tr['bad']),
         'programs': len(builds), 'evaluations': len(allrec), 'distinct_nontrivial': len(builds) - 1,
         'feature_subsets_built': len(builds), 'feature_subsets_expanded': len(exp_subsets), 'boundary_subsets_flagged_by_model': len(boundary),
         'rule': 'gating facts extracted from the source and checked by TLC for all 4095 non-empty subsets; real `cargo check --no-default-features --features S` of the crate '
@@ -1778,7 +1837,7 @@ def c19(ctx):
                             'shape': h['kind'], 'traits': h['traits'],
                             'in_process': {'outcome': acc[i]['outcome'], 'err': acc[i].get('err')}, 'rustc': p_['msgs'][:4]})
     ctx.coverage.update({
-        'traces_validated_against_impl': 1, 'trace_events': tr['n'], 'trace_events_rejected': len(tr['bad']),
+        'traces_validated_against_impl': tr['n'] - len(tr['bad']), 'trace_files': 1, 'trace_events': tr['n'], 'trace_events_rejected': len(tr['bad']),
         'programs': len(rendered), 'evaluations': tr['n'], 'distinct_nontrivial': len(rendered),
         'identifier_pool': pool,
         'rule': 'identifier pool = every identifier occurring in real expansions but not in their inputs (recorded at check time); TLC enumerates pool identifier x namespace '
